@@ -37,47 +37,41 @@ Proof. induction a; simpl; congruence. Qed.
 Fixpoint eval_le (ds : list N) : N :=
   match ds with [] => 0%N | d :: r => (d + 8 * eval_le r)%N end.
 
-Lemma oct_digits_fuel_spec fuel : forall n, (n < 2 ^ N.of_nat fuel)%N -> (0 < fuel)%nat ->
-  eval_le (oct_digits_fuel fuel n) = n
-  /\ Forall (fun d => (d < 8)%N) (oct_digits_fuel fuel n)
-  /\ oct_digits_fuel fuel n <> []
-  /\ ((0 < n)%N -> last (oct_digits_fuel fuel n) 0%N <> 0%N)
-  /\ ((8 <= n)%N -> (2 <= List.length (oct_digits_fuel fuel n))%nat).
+Definition oct_ok (n : N) (ds : list N) : Prop :=
+  eval_le ds = n
+  /\ Forall (fun d => (d < 8)%N) ds
+  /\ ds <> []
+  /\ ((0 < n)%N -> last ds 0%N <> 0%N)
+  /\ ((8 <= n)%N -> (2 <= List.length ds)%nat).
+
+Lemma oct_ok_small d : (0 < d < 8)%N -> oct_ok d [d].
 Proof.
-  induction fuel as [|f IH]; intros n Hn Hf; [lia|].
-  simpl. destruct (n <? 8)%N eqn:E.
-  - apply N.ltb_lt in E. simpl. repeat split; try lia.
-    + constructor; [exact E | constructor].
-    + discriminate.
-  - apply N.ltb_ge in E.
-    assert (Hq : (n / 8 < 2 ^ N.of_nat f)%N).
-    { rewrite Nat2N.inj_succ, N.pow_succ_r' in Hn.
-      set (X := (2 ^ N.of_nat f)%N) in *.
-      apply N.div_lt_upper_bound; lia. }
-    assert (Hf' : (0 < f)%nat).
-    { destruct f; [|lia]. simpl in Hq. assert (n / 8 = 0)%N by lia.
-      apply N.div_small_iff in H; lia. }
-    destruct (IH (n / 8)%N Hq Hf') as (V & D & NE & L & _).
-    cbn [eval_le]. rewrite V. repeat split.
-    + pose proof (N.div_mod n 8 ltac:(lia)) as DM. lia.
-    + constructor; [apply N.mod_lt; lia | exact D].
-    + discriminate.
-    + intros _. destruct (oct_digits_fuel f (n / 8)) eqn:Q; [congruence|].
-      change (last (n0 :: l) 0%N <> 0%N). apply L. assert (1 <= n / 8)%N; [|lia].
-      apply N.div_le_lower_bound; lia.
-    + intros _. destruct (oct_digits_fuel f (n / 8)); [congruence | simpl; lia].
+  intros H. unfold oct_ok. cbn [eval_le last List.length]. repeat split; try lia.
+  - constructor; [lia | constructor].
+  - discriminate.
 Qed.
 
-Lemma size_nat_bound n : (n < 2 ^ N.of_nat (S (N.size_nat n)))%N.
+Lemma oct_ok_step d q ds : (d < 8)%N -> oct_ok (N.pos q) ds -> oct_ok (d + 8 * N.pos q) (d :: ds).
 Proof.
-  destruct n as [|p]; [simpl; lia|].
-  rewrite Nat2N.inj_succ, N.pow_succ_r'.
-  assert (H : (N.pos p < 2 ^ N.of_nat (N.size_nat (N.pos p)))%N).
-  { simpl. induction p as [p IH|p IH|]; simpl Pos.size_nat.
-    - rewrite Nat2N.inj_succ, N.pow_succ_r'. lia.
-    - rewrite Nat2N.inj_succ, N.pow_succ_r'. lia.
-    - simpl. lia. }
-  lia.
+  intros Hd (V & D & NE & L & _). unfold oct_ok. cbn [eval_le]. rewrite V. repeat split.
+  - constructor; assumption.
+  - discriminate.
+  - intros _. destruct ds as [|x xs]; [congruence|]. change (last (x :: xs) 0%N <> 0%N). apply L. lia.
+  - intros _. destruct ds; [congruence | simpl; lia].
+Qed.
+
+Lemma oct_pos_spec_size n : forall p, (Pos.size_nat p <= n)%nat -> oct_ok (N.pos p) (oct_pos p).
+Proof.
+  induction n as [|n IH]; intros p Hp; [destruct p; simpl in Hp; lia|].
+  assert (S3 : forall q d, (d < 8)%N -> (Pos.size_nat q <= n)%nat ->
+               oct_ok (d + 8 * N.pos q) (d :: oct_pos q)).
+  { intros q d Hd Hq. apply oct_ok_step; [exact Hd | apply IH; exact Hq]. }
+  destruct p as [[[q|q|]|[q|q|]|]|[[q|q|]|[q|q|]|]|]; cbn [oct_pos]; simpl Pos.size_nat in Hp;
+    try (apply oct_ok_small; lia);
+    match goal with
+    | |- oct_ok (N.pos ?P) (?d :: oct_pos ?q) =>
+        replace (N.pos P) with (d + 8 * N.pos q)%N by lia; apply S3; lia
+    end.
 Qed.
 
 Lemma oct_digits_spec n :
@@ -86,7 +80,11 @@ Lemma oct_digits_spec n :
   /\ oct_digits n <> []
   /\ ((0 < n)%N -> last (oct_digits n) 0%N <> 0%N)
   /\ ((8 <= n)%N -> (2 <= List.length (oct_digits n))%nat).
-Proof. unfold oct_digits. apply oct_digits_fuel_spec; [apply size_nat_bound | lia]. Qed.
+Proof.
+  destruct n as [|p].
+  - simpl. repeat split; try lia; try discriminate. constructor; [lia | constructor].
+  - apply (oct_pos_spec_size (Pos.size_nat p) p). lia.
+Qed.
 
 Lemma digit_value d : (d < 8)%N -> octal_digit_value (digit_char d) = Some (Z.of_N d).
 Proof.
